@@ -21,15 +21,30 @@ non-trivia raw tokens), the parser is a function of the non-trivia kinds and joi
 2. `builder_blind` — `build_tree` is blind to trivia: same non-trivia raw tokens and same steps ⇒
    the two trees agree after `eraseTriviaT`.  Hypothesis `glueOk`: a composite token step does not
    swallow a trivia token (necessary: `glue_needed`).
+   `builder_headOk`: every tree the builder produces satisfies `rootHeadOk` (trivia in front of
+   a node is attached OUTSIDE it; `n_attached_trivias` is non-zero only for `CONST`, which is not
+   a head kind) — hypothesis `tokenKindsOk`: no parser step is a token of a trivia kind.
 3. `layout_invariant_tree_to_ast`, `layout_invariant_to_graph` — the composition: the two typed
    ASTs agree modulo spans, and the analyses agree modulo diagnostic positions.
+0. `dump_factors` — `Build.program t = .ok p → Dump.program t = Render.program p`: the structured
+   value is the one the (validated) I5 dump prints.
 -/
 import Oq3.Lemmas.AccLayout
-import Oq3.Lemmas.TreeCNode
+import Oq3.Lemmas.AccRender
+import Oq3.Lemmas.BuilderHead
 import Oq3.Props.C17LayoutTrees
 
 namespace Oq3.C17Layout
 open Oq3.Gen Oq3.Acc Oq3.C17 Oq3.Builder Oq3.BuilderLayout Oq3.Parser Oq3.Sema
+
+/-! ## 0. the structured accessor layer and the dump -/
+
+/-- **`Dump.program = Render.program ∘ Build.program`** wherever `Build.program` is defined (it
+fails exactly where the dump has a `!` that the `sema` decoder rejects as `BAD-AST`, or — never,
+with the default fuel — runs out of fuel) -/
+theorem dump_factors (t : CNode) (p : Ast.Program) (h : Build.program t = .ok p) :
+    Dump.program t = Render.program p :=
+  Render.dump_eq_render t p h
 
 /-! ## 1. the accessors -/
 
@@ -55,6 +70,12 @@ theorem builder_blind {toks1 toks2 : List RawTok} {ss : List Step}
     eraseTriviaT t1 = eraseTriviaT t2 :=
   buildTree_layout hnt g1 g2 h1 h2
 
+/-- **The builder establishes the hypothesis of (1).** -/
+theorem builder_headOk {toks : List RawTok} {ss : List Step} {t : Tree} {e : List SynErr} {eof : Bool}
+    (hk : tokenKindsOk ss = true) (h : buildTree toks ss = .ok (t, e, eof)) :
+    rootHeadOk (cnodeOf t) = true := by
+  rw [rootHeadOk_cnodeOf]; exact buildTree_rootHeadOkT hk h
+
 /-! ## 3. composition -/
 
 /-- **Same non-trivia raw tokens + same parser steps ⇒ same typed AST modulo spans.** -/
@@ -65,6 +86,14 @@ theorem layout_invariant_tree_to_ast {toks1 toks2 : List RawTok} {ss : List Step
     (k1 : rootHeadOk (cnodeOf t1) = true) (k2 : rootHeadOk (cnodeOf t2) = true) :
     (Build.program (cnodeOf t1)).map eraseSpans = (Build.program (cnodeOf t2)).map eraseSpans :=
   accessors_blind_pair (eraseTrivia_cnodeOf (builder_blind hnt g1 g2 h1 h2)) k1 k2
+
+/-- the same with `rootHeadOk` discharged by the builder -/
+theorem layout_invariant_tokens_to_ast {toks1 toks2 : List RawTok} {ss : List Step}
+    {t1 t2 : Tree} {e1 e2 : List SynErr} {eof1 eof2 : Bool} (hnt : nt toks1 = nt toks2)
+    (hk : tokenKindsOk ss = true) (g1 : glueOk toks1 ss = true) (g2 : glueOk toks2 ss = true)
+    (h1 : buildTree toks1 ss = .ok (t1, e1, eof1)) (h2 : buildTree toks2 ss = .ok (t2, e2, eof2)) :
+    (Build.program (cnodeOf t1)).map eraseSpans = (Build.program (cnodeOf t2)).map eraseSpans :=
+  layout_invariant_tree_to_ast hnt g1 g2 h1 h2 (builder_headOk hk h1) (builder_headOk hk h2)
 
 /-- the same for two trees (e.g. the implementation's own): when one has a typed AST so has the
 other, and they are equal after `eraseSpans` -/
@@ -102,6 +131,19 @@ theorem layout_invariant_to_graph (fuel : Nat) {toks1 toks2 : List RawTok} {ss :
     ∃ p2, Build.program (cnodeOf t2) = .ok p2 ∧
       (analyzeWith fuel p1).map erCtx = (analyzeWith fuel p2).map erCtx :=
   layout_invariant_to_graph_of_trees fuel (eraseTrivia_cnodeOf (builder_blind hnt g1 g2 h1 h2)) k1 k2 hp
+
+/-- **Layout invariance, raw tokens to graph**, `rootHeadOk` discharged by the builder: the only
+hypotheses left are about the INPUT of the builder — same non-trivia raw tokens (the lexer half,
+`Oq3.Props.C15.trivia_irrelevant`), same steps (the parser is a function of those), no trivia
+kinds among the steps and no trivia inside a composite token -/
+theorem layout_invariant_tokens_to_graph (fuel : Nat) {toks1 toks2 : List RawTok} {ss : List Step}
+    {t1 t2 : Tree} {e1 e2 : List SynErr} {eof1 eof2 : Bool} (hnt : nt toks1 = nt toks2)
+    (hk : tokenKindsOk ss = true) (g1 : glueOk toks1 ss = true) (g2 : glueOk toks2 ss = true)
+    (h1 : buildTree toks1 ss = .ok (t1, e1, eof1)) (h2 : buildTree toks2 ss = .ok (t2, e2, eof2))
+    {p1 : Ast.Program} (hp : Build.program (cnodeOf t1) = .ok p1) :
+    ∃ p2, Build.program (cnodeOf t2) = .ok p2 ∧
+      (analyzeWith fuel p1).map erCtx = (analyzeWith fuel p2).map erCtx :=
+  layout_invariant_to_graph fuel hnt g1 g2 h1 h2 (builder_headOk hk h1) (builder_headOk hk h2) hp
 
 /-- in particular: same graph, same symbol table, same diagnostic kinds in the same order -/
 theorem layout_invariant_to_graph_ok (fuel : Nat) {t1 t2 : CNode}
@@ -186,6 +228,20 @@ example : eraseTriviaT (treeOf (buildTree toksA stepsAB)) = eraseTriviaT (treeOf
 example : (Build.program (cnodeOf (treeOf (buildTree toksA stepsAB)))).map eraseSpans =
     (Build.program (cnodeOf (treeOf (buildTree toksB stepsAB)))).map eraseSpans :=
   layout_invariant_tree_to_ast (by decide +kernel) (by decide +kernel) (by decide +kernel) buildA buildB (by decide +kernel) (by decide +kernel)
+
+/-- the instances of `builder_headOk` and of the hypothesis-light (3) -/
+example : tokenKindsOk stepsAB = true := by decide +kernel
+example : rootHeadOk (cnodeOf (treeOf (buildTree toksA stepsAB))) = true :=
+  builder_headOk (by decide +kernel) buildA
+example := layout_invariant_tokens_to_ast (toks1 := toksA) (toks2 := toksB) (ss := stepsAB)
+  (by decide +kernel) (by decide +kernel) (by decide +kernel) (by decide +kernel) buildA buildB
+
+/-- the instance of (0): the dump of the real tree is the rendering of its structured typed AST -/
+example : ∃ p, Build.program layBFile = .ok p ∧ Dump.program layBFile = Render.program p := by
+  have hok : (Build.program layBFile).toBool = true := by decide +kernel
+  cases h : Build.program layBFile with
+  | error e => rw [h] at hok; cases hok
+  | ok p => exact ⟨p, rfl, dump_factors _ _ h⟩
 
 /-- `glueOk` is necessary: `>>` against `> >` under the step `token SHR 2` — same non-trivia raw
 tokens, same steps, both builds succeed, different trees -/
